@@ -49,19 +49,31 @@ pub fn generate(tier: &str, rng: &mut Rng) -> Vec<Spec> {
             _ => ops.push(format!("f{}:{}", slot, rng.range(-4, 4))) } }
         v.push(Spec::new("own").with("k", kind).with("N", n).with("ops", ops.join(",")));
     }
+    // fault injection (outside the property's own quantifier, see DESIGN 6/C19): a filter call during which the k-th clone or
+    // comparison of the sample type panics; the unwinding is caught and the program goes on. Only the ledger's anomaly
+    // count is judged on these (a leak after a panic is not an error; a double drop or a read of a dropped value is).
+    for kind in KINDS { for n in 1..=(if t { 5 } else { 4 }) { for k in 1..=(if t { 12 } else { 8 }) { for pre in 0..=(n + 1) {
+        let mut ops: Vec<String> = (0..pre).map(|i| format!("f0:{}", (i * 3 + 1) % 5)).collect();
+        ops.push(format!("p0:{}:{}", rng.range(-4, 4), k));
+        for _ in 0..(n + 2) { match rng.below(8) { 0 => ops.push("c0".into()), 1 => ops.push("r0".into()), 2 => ops.push("g0".into()), 3 => ops.push(format!("p0:{}:{}", rng.range(-4, 4), rng.range(1, 6))), _ => ops.push(format!("f0:{}", rng.range(-4, 4))) } }
+        v.push(Spec::new("own").with("k", kind).with("N", n).with("ops", ops.join(",")));
+    } } } }
     v
 }
 pub fn exec(s: &Spec, stats: &mut Stats) -> Outcome {
     let kind = s.get("k").to_string(); let n = s.usize("N"); let ops = s.strs("ops");
     stats.bump(format!("kind:{}", kind)); stats.bump(format!("N:{}", n)); stats.bump(format!("len:{}", ops.len() / 10 * 10));
     tok::reset_ledger();
-    let mut lives: Vec<usize> = vec![]; let mut cops: Vec<String> = vec![];
+    let mut lives: Vec<usize> = vec![]; let mut cops: Vec<String> = vec![]; let faults = std::cell::Cell::new(0u64);
+    let faulty = ops.iter().any(|o| o.starts_with('p')); if faulty { stats.bump("fault-injection"); }
     let r = catch(|| {
         let first = match mk_inst!(kind.as_str(), n; 1 2 3 4 5 6) { Some(f) => f, None => return false };
         let mut pool: Vec<Option<Box<dyn DynOwn>>> = vec![Some(first)];
         for o in &ops {
-            let (c, rest) = o.split_at(1); let (slot, val) = match rest.split_once(':') { Some((a, b)) => (a.parse::<usize>().unwrap(), b.parse::<i64>().unwrap()), None => (rest.parse::<usize>().unwrap(), 0) };
+            let (c, rest) = o.split_at(1); let mut parts = rest.split(':');
+            let slot = parts.next().unwrap().parse::<usize>().unwrap(); let val = parts.next().map(|b| b.parse::<i64>().unwrap()).unwrap_or(0); let fuse = parts.next().map(|b| b.parse::<u64>().unwrap()).unwrap_or(0);
             match c {
+                "p" => { if let Some(Some(f)) = pool.get_mut(slot) { tok::arm(fuse); let r = catch(|| f.step(val)); tok::disarm(); if r.is_err() { faults.set(faults.get() + 1); } } cops.push(format!("(OFilter {}%nat {})", slot, cz(val))); }
                 "f" => { if let Some(Some(f)) = pool.get_mut(slot) { f.step(val); } cops.push(format!("(OFilter {}%nat {})", slot, cz(val))); }
                 "c" => { let cl = pool.get(slot).and_then(|f| f.as_ref().map(|f| f.clone_box())); if let Some(cl) = cl { pool.push(Some(cl)); } cops.push(format!("(OClone {}%nat)", slot)); }
                 "r" => { if slot < pool.len() { if let Some(f) = pool[slot].take() { pool[slot] = Some(f.reset_box()); } } cops.push(format!("(OReset {}%nat)", slot)); }
@@ -72,9 +84,10 @@ pub fn exec(s: &Spec, stats: &mut Stats) -> Outcome {
         }
         drop(pool); true
     });
+    tok::disarm(); if faults.get() > 0 { stats.bump("fault-injection:panicked"); }
     let panic = !matches!(r, Ok(true));
     if let Ok(false) = r { return Outcome::Skip("width-not-instantiated"); }
     if panic { stats.panics += 1; }
     let k = match kind.as_str() { "median" => "KMedian", "mean" => "KMean", "max" => "KMax", "min" => "KMin", "bounds" => "KBounds", "conv" | "convn" => "KConv", _ => "KDelay" };
-    Outcome::Case(format!("mk {} {}%nat [{}] {} {}%nat {}%nat {}", k, n, cops.join(";"), clist(&lives, |l| format!("{}%nat", l)), tok::anomalies(), tok::live(), cbool(panic)))
+    Outcome::Case(format!("mk {} {}%nat [{}] {} {}%nat {}%nat {} {}", k, n, cops.join(";"), clist(&lives, |l| format!("{}%nat", l)), tok::anomalies(), tok::live(), cbool(panic), cbool(faulty)))
 }
